@@ -138,8 +138,8 @@ def run(ctx):
                 sb = elem_binding(pat["subs"][1])
             else:
                 sb = elem_binding(pat)
-            fp = field_path(e_arg)
-            ok = sb is not None and fp is not None and fp[1] == sb[1] and fp[2] == ["symbol"] and is_lit(step, 0)
+            fp = field_path(resolve(e_arg))
+            ok = sb is not None and fp is not None and (fp[1] == sb[1] or canon(fp[1]) == canon(sb[1])) and fp[2] == ["symbol"] and is_lit(resolve(step), 0)
             ctx.inst("R03.1", "get_witness:states", ok, n["sp"], "initial state values must be get_signal_at(state.symbol, 0) (found `%s`)" % show(n), sample=show(n))
             # R03.3: unconditional pushes to wit.init and wit.init_names in this loop
             for fld in ("init", "init_names"):
@@ -243,18 +243,26 @@ def run(ctx):
     c02.loop_shell(ctx)
 
 
+def _value_of_block(e):
+    """the value expression of a block with statements (an inlined helper: `{ let sym = ..; get_smt_value(.., sym) }`), through `?`"""
+    e = strip_try(e)
+    while e.get("k") == "blockexpr" and "tail" in e["b"]:
+        e = strip_try(e["b"]["tail"])
+    return e
+
+
 def flows_from_call(n, call, defs, depth=0):
     """n is the call (through `?`), or a local that only renames / destructures its value (let, let-else, match arms returning their own binding)"""
-    n0 = strip_try(n)
+    n0 = _value_of_block(strip_try(n))
     if n0 is call:
         return True
     if n0.get("k") != "local" or depth > 5:
         return False
-    d = defs.get(n0["id"])
+    d = defs.get(n0["id"]) or defs.get(canon(n0["id"]))
     if not d:
         return False
     if d[0] == "let" and "init" in d[1]:
-        init = strip_try(d[1]["init"])
+        init = _value_of_block(strip_try(d[1]["init"]))
         if init is call or init.get("k") == "local":
             return flows_from_call(init, call, defs, depth + 1)
         if init.get("k") == "match":
@@ -286,7 +294,7 @@ def is_some_of(e, call, defs):
         return flows_from_call(e["args"][0], call, defs)
     if e.get("k") == "ctor" and callee(e).endswith("Result::Ok") and len(e["args"]) == 1:
         return is_some_of(e["args"][0], call, defs)
-    if e.get("k") == "mcall" and e["name"] == "map" and len(e["args"]) == 1 and e["recv"] is call or (e.get("k") == "mcall" and e["name"] == "map" and strip_try(e["recv"]) is call):
+    if e.get("k") == "mcall" and e["name"] == "map" and len(e["args"]) == 1 and (e["recv"] is call or strip_try(e["recv"]) is call or _value_of_block(e["recv"]) is call):
         f_ = peel(e["args"][0])
         return (f_.get("k") == "def" and (f_.get("path") or "").endswith("Option::Some"))
     return False
